@@ -12,6 +12,7 @@ import (
 	authtypes "github.com/cosmos/cosmos-sdk/x/auth/types"
 	"github.com/ethereum/go-ethereum/common"
 	"github.com/ethereum/go-ethereum/crypto"
+	evmtypes "github.com/evmos/evmos/v16/x/evm/types"
 
 	"verif/evm"
 	"verif/mon"
@@ -62,6 +63,9 @@ func runEvmAcct(j Job) *Result {
 			n = 150 + r.Intn(150)
 		}
 		for k := 0; k < n && !w.Dead; k++ {
+			if k%12 == 7 {
+				e.pair()
+			}
 			e.one()
 			if r.Intn(5) == 0 {
 				w.Advance(w.Dt)
@@ -227,6 +231,100 @@ func (e *evmRun) target(sender *sim.Account) evmTarget {
 	default:
 		to := common.BytesToAddress(randBytes(r, 20))
 		return evmTarget{name: "fresh-address", to: &to, data: randBytes(r, r.Intn(40)), payTo: &to}
+	}
+}
+
+// pair: one cosmos transaction that carries two separately signed Ethereum messages of two different funded senders
+// (plain transfers, gas limit 21 000 = gas used, different prices and values). Executed => each sender pays exactly its own
+// value + 21 000 x its own price and its own nonce moves by one, the recipient gets both values, the fee collector both
+// fees; rejected => nobody's balance or nonce moves.
+func (e *evmRun) pair() {
+	w, r, s := e.w, e.r, e.s
+	c := w.C
+	ctx := c.Ctx()
+	i := r.Intn(4)
+	j := (i + 1 + r.Intn(3)) % 4
+	sa, sb := e.senders[i], e.senders[j]
+	to := e.eoas[r.Intn(3)]
+	bf := c.App.FeeMarketKeeper.GetBaseFee(ctx)
+	if e.noBaseFee || bf == nil {
+		bf = big.NewInt(0)
+	}
+	ref := new(big.Int).Set(bf)
+	if mp := e.minGasPrice.Ceil().TruncateInt().BigInt(); mp.Cmp(ref) > 0 {
+		ref = mp
+	}
+	if ref.Sign() == 0 {
+		ref = big.NewInt(1_000_000_000)
+	}
+	var msgs []*evmtypes.MsgEthereumTx
+	snd := []*sim.Account{sa, sb}
+	price := []*big.Int{new(big.Int).Mul(ref, big.NewInt(int64(1+r.Intn(3)))), new(big.Int).Mul(ref, big.NewInt(int64(2+r.Intn(3))))}
+	value := []*big.Int{big.NewInt(int64(r.Intn(1_000_000))), big.NewInt(int64(1 + r.Intn(1_000_000)))}
+	nonce := []uint64{c.App.EvmKeeper.GetNonce(ctx, sa.Eth), c.App.EvmKeeper.GetNonce(ctx, sb.Eth)}
+	if r.Intn(10) == 0 {
+		nonce[1]++ // the second message is inadmissible: the whole transaction must cost nobody anything
+	}
+	for k := range snd {
+		n := nonce[k]
+		_, m, err := c.EthTx(ctx, sim.EthTxArgs{From: snd[k], To: &to, Value: value[k], GasLimit: 21_000, GasPrice: price[k], Nonce: &n, Type: 0})
+		if err != nil {
+			return
+		}
+		msgs = append(msgs, m)
+	}
+	bz, err := sim.WrapEthMsgs(c.TxCfg, msgs...)
+	if err != nil {
+		return
+	}
+	watch := map[string]sdk.AccAddress{"sender-1": sa.Acc, "sender-2": sb.Acc, "to": sdk.AccAddress(to.Bytes()), "collector": e.collector}
+	pre := map[string]*big.Int{}
+	for k, a := range watch {
+		pre[k] = e.bal(a)
+	}
+	curNonce := []uint64{c.App.EvmKeeper.GetNonce(ctx, sa.Eth), c.App.EvmKeeper.GetNonce(ctx, sb.Eth)}
+	st := w.RawTxStep("eth_tx_pair", bz, map[string]string{"sender-1": sa.Name, "sender-2": sb.Name, "prices": price[0].String() + "," + price[1].String(), "values": value[0].String() + "," + value[1].String(), "nonces": fmt.Sprint(nonce, curNonce)}, nil)
+	e.txs++
+	s.Eval("two-sender-transaction")
+	if st.Panic != "" {
+		s.Violate("panic-in-delivery", "two-senders", e.hist, st.I, "DeliverTx panicked: %s", trunc80(st.Panic))
+		return
+	}
+	ctx = c.Ctx()
+	delta := func(k string) *big.Int { return new(big.Int).Sub(e.bal(watch[k]), pre[k]) }
+	nAfter := []uint64{c.App.EvmKeeper.GetNonce(ctx, sa.Eth), c.App.EvmKeeper.GetNonce(ctx, sb.Eth)}
+	executed := st.TxRes.Code == 0
+	s.Case(fmt.Sprintf("two-senders|executed=%v|second-nonce-ahead=%v", executed, nonce[1] != curNonce[1]))
+	if !executed {
+		for k := range watch {
+			if delta(k).Sign() != 0 {
+				s.Violate("rejected-transaction-moved-money", "two-senders|"+k, e.hist, st.I, "two-message transaction rejected (%s) but the balance of %s changed by %s; %v", trunc80(st.Err), k, delta(k), st.P)
+			}
+		}
+		if nAfter[0] != curNonce[0] || nAfter[1] != curNonce[1] {
+			s.Violate("rejected-transaction-moved-nonce", "two-senders", e.hist, st.I, "two-message transaction rejected (%s) but the nonces went %v -> %v", trunc80(st.Err), curNonce, nAfter)
+		}
+		return
+	}
+	fees := new(big.Int)
+	vals := new(big.Int)
+	for k, name := range []string{"sender-1", "sender-2"} {
+		fee := new(big.Int).Mul(price[k], big.NewInt(21_000))
+		want := new(big.Int).Neg(new(big.Int).Add(fee, value[k]))
+		fees.Add(fees, fee)
+		vals.Add(vals, value[k])
+		if delta(name).Cmp(want) != 0 {
+			s.Violate("sender-delta-differs", "two-senders|"+name, e.hist, st.I, "two-message transaction executed: %s's balance changed by %s, its own value + 21000 x its own price = %s; %v", name, delta(name), want, st.P)
+		}
+		if nAfter[k] != curNonce[k]+1 {
+			s.Violate("nonce-not-incremented-by-one", "two-senders|"+name, e.hist, st.I, "nonce of %s %d -> %d", name, curNonce[k], nAfter[k])
+		}
+	}
+	if delta("to").Cmp(vals) != 0 {
+		s.Violate("recipient-delta-differs", "two-senders", e.hist, st.I, "recipient received %s, values sent %s", delta("to"), vals)
+	}
+	if delta("collector").Cmp(fees) != 0 {
+		s.Violate("collector-delta-differs", "two-senders", e.hist, st.I, "fee collector received %s, fees %s", delta("collector"), fees)
 	}
 }
 
